@@ -638,7 +638,11 @@ Token *tokenize(File *file) {
     error_at(p, "invalid token");
   }
 
+  // The end of the input also ends the last line, even if the input
+  // stops in the middle of a line (a NUL byte, or a macro body given
+  // with -D).
   cur = cur->next = new_token(TK_EOF, p, p);
+  cur->at_bol = true;
   add_line_numbers(head.next);
   return head.next;
 }
